@@ -862,6 +862,33 @@ def nullfail_matrix(rng, keys):
                             yield spend(tx, b"\x00\x20" + sha256(script), 7000, flags, "sig.nullfail.p2wsh")
 
 
+def tiny_sig_matrix(rng, keys):
+    """a one-byte "signature" whose value equals a small-number opcode, below genuine signatures, in legacy m-of-n scripts that
+    tolerate failure (trailing NOT): FindAndDelete must remove the plain push <01 xx>, never OP_1..OP_16 / OP_1NEGATE, or the
+    script code the genuine signatures commit to changes"""
+    for nkeys, m in ((2, 2), (3, 2), (3, 3), (16, 2)):
+        kidx = [k % len(keys.d) for k in range(nkeys)]
+        pubs = [keys.sec(k, True) for k in kidx]
+        script = num(m) + b"".join(push(p) for p in pubs) + num(nkeys) + b"\xae\x91"
+        for tiny in sorted({m, nkeys & 0xff if nkeys <= 16 else 16, 1, 16, 0x81}):
+            for flags in (RS.DERSIG, RS.STRICTENC, RS.LOW_S, RS.DERSIG | RS.P2SH, 0, RS.NULLFAIL, RS.P2SH | RS.WITNESS | RS.DERSIG | RS.NULLDUMMY):
+                for wrapper in ("bare", "p2sh"):
+                    if wrapper == "p2sh" and len(script) > 520:
+                        continue
+                    tx = mk_tx(rng, b"", [], 9000, 1, 0, 0xffffffff, 0, 1, 0)
+                    digest = SH.legacy(tx, 0, script, 1)
+                    signers = kidx[nkeys - m + 1:]
+                    sigs = [bytes([tiny])] + [sig_blob(keys, k, digest, 1) for k in signers]
+                    unlock = [b""] + sigs
+                    ssig = b"".join(SH.push_data(u) for u in unlock)
+                    if wrapper == "bare":
+                        tx["ins"][0]["script"] = ssig
+                        yield spend(tx, script, 9000, flags, "sig.tiny_sig.bare")
+                    else:
+                        tx["ins"][0]["script"] = ssig + SH.push_data(script)
+                        yield spend(tx, b"\xa9\x14" + hash160(script) + b"\x87", 9000, fix_flags(flags | RS.P2SH), "sig.tiny_sig.p2sh")
+
+
 def locktime_cases(rng, n):
     """CLTV / CSV: operand x tx lock_time / sequence / version on both sides of every comparison"""
     T = 500000000
